@@ -281,6 +281,91 @@ func genExportGuard(repo string) (string, error) {
 	out.WriteString("def funcsGuard (" + pe + " " + pd + " : Bool) : Bool :=\n  " + guard + "\n\n")
 	fmt.Fprintf(&out, "/-- number of conditions found -/\ndef funcsGuardConds : Nat := %d\n\n", len(conds))
 
+	// ---- 1b. emitCallNode: the guard of the direct-call branch for a callee that is a plain identifier
+	ecn := egMethod(em, "emitter", "emitCallNode")
+	if ecn == nil || ecn.Body == nil {
+		return "", egErr("no (*emitter).emitCallNode")
+	}
+	var direct []*ast.IfStmt
+	ast.Inspect(ecn.Body, func(n ast.Node) bool {
+		ifs, ok := n.(*ast.IfStmt)
+		if !ok || ifs.Init == nil || g.src(ifs.Init) != "ident, ok := call.Func.(*ast.Identifier)" {
+			return true
+		}
+		// the branch that asks the package table for ident.Name
+		if len(ifs.Body.List) > 0 {
+			if in, ok := ifs.Body.List[0].(*ast.IfStmt); ok && in.Init != nil &&
+				g.src(in.Init) == "fn, ok := em.fnStore.availableScriggoFn(em.pkg, ident.Name)" && g.src(in.Cond) == "ok" {
+				direct = append(direct, ifs)
+			}
+		}
+		return true
+	})
+	// every other use of the package table by plain name inside emitCallNode would be a second direct-call path
+	tableUses := 0
+	ast.Inspect(ecn.Body, func(n ast.Node) bool {
+		if c, ok := n.(*ast.CallExpr); ok && g.src(c.Fun) == "em.fnStore.availableScriggoFn" && len(c.Args) == 2 && g.src(c.Args[1]) == "ident.Name" {
+			tableUses++
+		}
+		return true
+	})
+	if len(direct) != 1 || tableUses != 1 {
+		return "", egErr("emitCallNode: %d branches `if ident, ok := call.Func.(*ast.Identifier); … { if fn, ok := em.fnStore.availableScriggoFn(em.pkg, ident.Name); ok {`, %d look-ups of ident.Name in the package table; want 1 and 1", len(direct), tableUses)
+	}
+	var dcg func(e ast.Expr) (string, error)
+	dcg = func(e ast.Expr) (string, error) {
+		switch e := e.(type) {
+		case *ast.ParenExpr:
+			return dcg(e.X)
+		case *ast.Ident:
+			if e.Name == "ok" {
+				return "isIdent", nil
+			}
+		case *ast.UnaryExpr:
+			if e.Op == token.NOT {
+				x, err := dcg(e.X)
+				if err != nil {
+					return "", err
+				}
+				return "(!" + x + ")", nil
+			}
+		case *ast.CallExpr:
+			if g.src(e) == "em.fb.declaredInFunc(ident.Name)" {
+				return "declaredInFunc", nil
+			}
+		case *ast.BinaryExpr:
+			if e.Op == token.LAND || e.Op == token.LOR {
+				x, err := dcg(e.X)
+				if err != nil {
+					return "", err
+				}
+				y, err := dcg(e.Y)
+				if err != nil {
+					return "", err
+				}
+				op := " && "
+				if e.Op == token.LOR {
+					op = " || "
+				}
+				return "(" + x + op + y + ")", nil
+			}
+		}
+		return "", egErr("emitCallNode: condition of the direct-call branch: %s", g.src(e))
+	}
+	dc, err := dcg(direct[0].Cond)
+	if err != nil {
+		return "", err
+	}
+	pi, pdf := "isIdent", "declaredInFunc"
+	if !strings.Contains(dc, "isIdent") {
+		pi = "_isIdent"
+	}
+	if !strings.Contains(dc, "declaredInFunc") {
+		pdf = "_declaredInFunc"
+	}
+	out.WriteString("/-- emitCallNode, branch \"Scriggo-defined function (identifier)\": the condition under which a call\n`Name(...)` is emitted as a direct call of the package table's function `Name`, as a function of\n`call.Func` being an identifier and of `em.fb.declaredInFunc(ident.Name)` -/\n")
+	out.WriteString("def directCallGuard (" + pi + " " + pdf + " : Bool) : Bool :=\n  " + dc + "\n\n")
+
 	// ---- 2. emitImport
 	es, err := parse("internal/compiler/emitter_statements.go")
 	if err != nil {
